@@ -28,14 +28,45 @@ def C18_full (c : Cfg) : Prop :=
     -- (f) the lock is taken only while some unfinished request holds it: free after every terminating request
     (s.sh.lock = true → ∃ t ∈ s.ths, t.holds = true) ∧ (∀ t ∈ s.ths, t.pc = .done → t.holds = false)
 
-/-! ### Invariant -/
+/-! ### The clauses of `C18_full` one by one (wave 2): which mechanism facts each of them needs -/
 
-/-- per-thread invariant relative to the shared state and the (ghost) owner of the lock. -/
+/-- (a), (b), (b'): mutual exclusion and refusal of every other request while one holds the lock. -/
+def ClMutex (c : Cfg) (s : State) : Prop :=
+  (∀ (i j : Nat) (ti tj : Thread), s.ths[i]? = some ti → s.ths[j]? = some tj → ti.holds = true → tj.holds = true → i = j) ∧
+  (∀ (i j : Nat) (ti tj : Thread), s.ths[i]? = some ti → s.ths[j]? = some tj → i ≠ j → ti.holds = true → tj.pc.active = false) ∧
+  (∀ (i j : Nat) (ti tj tj' : Thread), s.ths[i]? = some ti → s.ths[j]? = some tj → i ≠ j → ti.holds = true → tj.pc ≠ .done →
+      (step c s (j, .go)).1.ths[j]? = some tj' → tj'.st = .refused ∧ tj'.pc = .done ∧ tj'.res = [])
+
+/-- (c), (d), (e): consecutive steps per response, no time twice, clock = number of steps returned. -/
+def ClConsec (s : State) : Prop :=
+  (∀ t ∈ s.ths, t.res = List.range' (t.res.headD 0) t.res.length) ∧
+  s.sh.produced.Nodup ∧
+  s.sh.clock = sumLen s.ths
+
+/-- (f): the lock is set only while a request holds it, and a finished request holds nothing. -/
+def ClRelease (s : State) : Prop :=
+  (s.sh.lock = true → ∃ t ∈ s.ths, t.holds = true) ∧ (∀ t ∈ s.ths, t.pc = .done → t.holds = false)
+
+theorem C18_full_iff (c : Cfg) :
+    C18_full c ↔ ∀ (stop : Nat) (ks : List Kind) (sched : Schedule),
+      ClMutex c (run c (State.init stop ks) sched) ∧ ClConsec (run c (State.init stop ks) sched) ∧
+      ClRelease (run c (State.init stop ks) sched) := by
+  constructor
+  · intro h stop ks sched
+    obtain ⟨a, b, b', d, e, f, g1, g2⟩ := h stop ks sched
+    exact ⟨⟨a, b, b'⟩, ⟨d, e, f⟩, ⟨g1, g2⟩⟩
+  · intro h stop ks sched
+    obtain ⟨⟨a, b, b'⟩, ⟨d, e, f⟩, ⟨g1, g2⟩⟩ := h stop ks sched
+    exact ⟨a, b, b', d, e, f, g1, g2⟩
+
+/-! ### Invariant of the exclusion part (needs only `mutexOk`: nothing about release) -/
+
+/-- per-thread invariant relative to the shared state and the (ghost) owner of the lock.  A request that has
+ended without releasing (a release fact is false) simply stays the owner for ever. -/
 structure TInv (sh : Shared) (o : Option Nat) (i : Nat) (t : Thread) : Prop where
   own : t.holds = true ↔ o = some i
   preFree : t.pc.pre = true → t.holds = false ∧ t.res = []
   actHolds : t.pc.active = true → t.holds = true
-  doneFree : t.pc = .done → t.holds = false
   consec : t.res = List.range' t.base t.res.length
   cur : t.holds = true → t.base + t.res.length = sh.clock
   locCur : (t.pc = .sim ∨ t.pc = .write) → t.loc = sh.clock
@@ -79,7 +110,7 @@ theorem TInv_frame {sh sh' : Shared} {o o' : Option Nat} {i j : Nat} {t : Thread
       constructor
       · intro hh; simp_all
       · intro hh; rcases h2 with h2 | h2 <;> simp_all
-  refine ⟨hown', h.preFree, h.actHolds, h.doneFree, h.consec, ?_, ?_, h.suspOk, h.noGen⟩
+  refine ⟨hown', h.preFree, h.actHolds, h.consec, ?_, ?_, h.suspOk, h.noGen⟩
   · intro hh
     rcases hc with hc | hc
     · rw [hc]; exact h.cur hh
@@ -101,14 +132,14 @@ def newOwner (o : Option Nat) (i : Nat) (t t' : Thread) : Option Nat :=
 theorem TInv_iff (sh : Shared) (o : Option Nat) (i : Nat) (t : Thread) :
     TInv sh o i t ↔
       ((t.holds = true ↔ o = some i) ∧ (t.pc.pre = true → t.holds = false ∧ t.res = []) ∧
-       (t.pc.active = true → t.holds = true) ∧ (t.pc = .done → t.holds = false) ∧
+       (t.pc.active = true → t.holds = true) ∧
        (t.res = List.range' t.base t.res.length) ∧ (t.holds = true → t.base + t.res.length = sh.clock) ∧
        ((t.pc = .sim ∨ t.pc = .write) → t.loc = sh.clock) ∧
        (t.susp = true → t.pc ≠ .done → (t.pc = .genStart ∨ t.holds = true)) ∧ t.pc ≠ .genStart) :=
-  ⟨fun h => ⟨h.1, h.2, h.3, h.4, h.5, h.6, h.7, h.8, h.9⟩, fun h => ⟨h.1, h.2.1, h.2.2.1, h.2.2.2.1, h.2.2.2.2.1,
-    h.2.2.2.2.2.1, h.2.2.2.2.2.2.1, h.2.2.2.2.2.2.2.1, h.2.2.2.2.2.2.2.2⟩⟩
+  ⟨fun h => ⟨h.1, h.2, h.3, h.4, h.5, h.6, h.7, h.8⟩, fun h => ⟨h.1, h.2.1, h.2.2.1, h.2.2.2.1, h.2.2.2.2.1,
+    h.2.2.2.2.2.1, h.2.2.2.2.2.2.1, h.2.2.2.2.2.2.2⟩⟩
 
-/-- What one transition of thread `i` does to the invariant (good configuration). -/
+/-- What one transition of thread `i` does to the invariant (configuration with `mutexOk`). -/
 def Spec (sh : Shared) (o : Option Nat) (i : Nat) (t : Thread) (r : Shared × Thread × Lbl) : Prop :=
     r.1.lock = (newOwner o i t r.2.1).isSome ∧
     TInv r.1 (newOwner o i t r.2.1) i r.2.1 ∧
@@ -117,15 +148,27 @@ def Spec (sh : Shared) (o : Option Nat) (i : Nat) (t : Thread) (r : Shared × Th
     ((r.1.clock = sh.clock ∧ r.1.produced = sh.produced ∧ r.2.1.res.length = t.res.length) ∨
      (r.1.clock = sh.clock + 1 ∧ r.1.produced = sh.produced ++ [sh.clock] ∧ r.2.1.res.length = t.res.length + 1))
 
-theorem stepT_spec (c : Cfg) (hc : c.good = true) (sh : Shared) (o : Option Nat) (i : Nat) (t : Thread) (ev : Ev)
+theorem mutexOk_iff (c : Cfg) :
+    c.mutexOk = true ↔ c.lockIsTestAndSet = true ∧ c.runStepTakesLock = true ∧ c.refusalKeepsLock = true := by
+  simp [Cfg.mutexOk, and_assoc]
+
+theorem releaseOk_iff (c : Cfg) :
+    c.releaseOk = true ↔ c.streamUnlocksOnDone = true ∧ c.unlockOnError = true ∧ c.unlockOnClientGone = true := by
+  simp [Cfg.releaseOk, and_assoc]
+
+theorem good_iff (c : Cfg) : c.good = true ↔ c.mutexOk = true ∧ c.releaseOk = true := by
+  simp [Cfg.good]
+
+theorem stepT_spec (c : Cfg) (hc : c.mutexOk = true) (sh : Shared) (o : Option Nat) (i : Nat) (t : Thread) (ev : Ev)
     (hl : sh.lock = o.isSome) (ht : TInv sh o i t) : Spec sh o i t (stepT c sh t ev) := by
-  obtain ⟨a, b, d, e, f⟩ := c
-  simp only [Cfg.good, Bool.and_eq_true] at hc
-  obtain ⟨⟨⟨⟨rfl, rfl⟩, rfl⟩, rfl⟩, rfl⟩ := hc
-  obtain ⟨h1, h2, h3, h4, h5, h6, h7, h8, h9⟩ := ht
+  obtain ⟨a, b, d, e, f, g⟩ := c
+  obtain ⟨h1, h2, h3⟩ := (mutexOk_iff _).mp hc
+  simp only at h1 h2 h3
+  subst h1 h2 h3
+  obtain ⟨h1, h2, h3, h5, h6, h7, h8, h9⟩ := ht
   obtain ⟨kind, pc, st, rem, first, loc, res, msgs, susp, holds, base⟩ := t
   obtain ⟨lock, clock, stop, produced⟩ := sh
-  simp only at h1 h2 h3 h4 h5 h6 h7 h8 h9 hl
+  simp only at h1 h2 h3 h5 h6 h7 h8 h9 hl
   cases ev
   · cases pc
     case start =>
@@ -145,11 +188,13 @@ theorem stepT_spec (c : Cfg) (hc : c.good = true) (sh : Shared) (o : Option Nat)
       have hsn := range'_snoc base res.length
       by_cases hr1 : rem ≤ 1 <;> cases kind <;>
         simp [Spec, TInv_iff, stepT, stepGo, afterStep, newOwner, Pc.pre, Pc.active, hr1] at * <;> grind
+    case ending =>
+      cases d <;> simp [Spec, TInv_iff, stepT, stepGo, newOwner, Pc.pre, Pc.active] at * <;> grind
     all_goals
       simp [Spec, TInv_iff, stepT, stepGo, newOwner, Pc.pre, Pc.active] at * <;> grind
-  · cases pc <;> cases kind <;>
+  · cases e <;> cases pc <;> cases kind <;>
       simp [Spec, TInv_iff, stepT, stepFail, newOwner, Pc.pre, Pc.active] at * <;> grind
-  · cases susp <;> cases pc <;>
+  · cases f <;> cases susp <;> cases pc <;>
       simp [Spec, TInv_iff, stepT, stepGone, newOwner, Pc.pre, Pc.active] at * <;> grind
 
 theorem sumLen_set (ths : List Thread) (i : Nat) (t t' : Thread) (h : ths[i]? = some t) :
@@ -164,7 +209,7 @@ theorem sumLen_set (ths : List Thread) (i : Nat) (t t' : Thread) (h : ths[i]? = 
       have := ih n h
       simp [sumLen] at this ⊢; omega
 
-theorem inv_step (c : Cfg) (hc : c.good = true) (s : State) (a : Nat × Ev) (h : Inv s) : Inv (step c s a).1 := by
+theorem inv_step (c : Cfg) (hc : c.mutexOk = true) (s : State) (a : Nat × Ev) (h : Inv s) : Inv (step c s a).1 := by
   unfold step
   cases hget : s.ths[a.1]? with
   | none => exact h
@@ -199,12 +244,12 @@ theorem inv_step (c : Cfg) (hc : c.good = true) (s : State) (a : Nat × Ev) (h :
       have := h.sum
       rcases s5 with ⟨e1, _, e3⟩ | ⟨e1, _, e3⟩ <;> omega
 
-theorem inv_run (c : Cfg) (hc : c.good = true) (sched : Schedule) : ∀ s, Inv s → Inv (run c s sched) := by
+theorem inv_run (c : Cfg) (hc : c.mutexOk = true) (sched : Schedule) : ∀ s, Inv s → Inv (run c s sched) := by
   induction sched with
   | nil => intro s h; exact h
   | cons a rest ih => intro s h; exact ih _ (inv_step c hc s a h)
 
-theorem inv_reachable (c : Cfg) (hc : c.good = true) (stop : Nat) (ks : List Kind) (sched : Schedule) :
+theorem inv_reachable (c : Cfg) (hc : c.mutexOk = true) (stop : Nat) (ks : List Kind) (sched : Schedule) :
     Inv (run c (State.init stop ks) sched) := inv_run c hc sched _ (inv_init stop ks)
 
 theorem consec_head (b : Nat) (l : List Nat) (h : l = List.range' b l.length) :
@@ -218,20 +263,27 @@ theorem consec_head (b : Nat) (l : List Nat) (h : l = List.range' b l.length) :
     simpa [List.range'_succ] using h2
 
 /-- a request that has not passed its lock test is refused by its next action when the lock is taken. -/
-theorem refused_when_locked (c : Cfg) (hc : c.good = true) (sh : Shared) (t : Thread) (hl : sh.lock = true)
+theorem refused_when_locked (c : Cfg) (hc : c.mutexOk = true) (sh : Shared) (t : Thread) (hl : sh.lock = true)
     (hp : t.pc.pre = true) (hg : t.pc ≠ .genStart) (hr : t.res = []) :
     (stepT c sh t .go).2.1.st = .refused ∧ (stepT c sh t .go).2.1.pc = .done ∧ (stepT c sh t .go).2.1.res = [] := by
-  obtain ⟨a, b, d, e, f⟩ := c
-  simp only [Cfg.good, Bool.and_eq_true] at hc
-  obtain ⟨⟨⟨⟨rfl, rfl⟩, rfl⟩, rfl⟩, rfl⟩ := hc
+  obtain ⟨a, b, d, e, f, g⟩ := c
+  obtain ⟨h1, h2, h3⟩ := (mutexOk_iff _).mp hc
+  simp only at h1 h2 h3
+  subst h1 h2 h3
   obtain ⟨kind, pc, st, rem, first, loc, res, msgs, susp, holds, base⟩ := t
   simp only at hp hg hr
   cases pc <;> cases kind <;> simp [Pc.pre] at hp hg <;>
     simp [stepT, stepGo, readLock, testAndSet, refuse, hl, hr]
 
-theorem C18_full_of_good (c : Cfg) (hc : c.good = true) : C18_full c := by
-  intro stop ks sched s
-  have hinv : Inv s := inv_reachable c hc stop ks sched
+/-! ### Per-clause theorems (wave 2) -/
+
+/-- **Mutual exclusion needs only `lockIsTestAndSet ∧ runStepTakesLock ∧ refusalKeepsLock`** — nothing about how
+(or whether) the lock is ever released: (a) at most one request between acquire and release, (b) no other request
+past its lock test, (b') every other unfinished request is refused by its next action with an empty response. -/
+theorem C18_mutex (c : Cfg) (hc : c.mutexOk = true) (stop : Nat) (ks : List Kind) (sched : Schedule) :
+    ClMutex c (run c (State.init stop ks) sched) := by
+  generalize hs : run c (State.init stop ks) sched = s
+  have hinv : Inv s := hs ▸ inv_reachable c hc stop ks sched
   obtain ⟨o, hl, hall, hex⟩ := hinv.ex
   have mutex : ∀ (i j : Nat) (ti tj : Thread), s.ths[i]? = some ti → s.ths[j]? = some tj →
       ti.holds = true → tj.holds = true → i = j := by
@@ -239,7 +291,7 @@ theorem C18_full_of_good (c : Cfg) (hc : c.good = true) : C18_full c := by
     have a := (hall i ti hi).own.mp h1
     have b := (hall j tj hj).own.mp h2
     rw [a] at b; exact Option.some.inj b
-  refine ⟨mutex, ?_, ?_, ?_, ?_, ?_, ?_, ?_⟩
+  refine ⟨mutex, ?_, ?_⟩
   · intro i j ti tj hi hj hne h1
     cases hact : tj.pc.active with
     | false => rfl
@@ -263,22 +315,163 @@ theorem C18_full_of_good (c : Cfg) (hc : c.good = true) : C18_full c := by
     simp at hstep
     subst hstep
     exact refused_when_locked c hc s.sh tj hlock hpre hjinv.noGen (hjinv.preFree hpre).2
+
+/-- **Consecutive steps / no time twice / clock = steps returned need the same three facts** (and again nothing
+about release: a request that ended without unlocking blocks everybody, which keeps the clock consistent). -/
+theorem C18_consecutive (c : Cfg) (hc : c.mutexOk = true) (stop : Nat) (ks : List Kind) (sched : Schedule) :
+    ClConsec (run c (State.init stop ks) sched) := by
+  generalize hs : run c (State.init stop ks) sched = s
+  have hinv : Inv s := hs ▸ inv_reachable c hc stop ks sched
+  obtain ⟨o, hl, hall, hex⟩ := hinv.ex
+  refine ⟨?_, ?_, ?_⟩
   · intro t ht
     obtain ⟨i, hi⟩ := List.getElem?_of_mem ht
     exact consec_head _ _ (hall i t hi).consec
   · rw [hinv.prod]; exact List.nodup_range
   · exact hinv.sum.symm
-  · intro hlk
-    rw [hl] at hlk
-    cases o with
-    | none => simp at hlk
-    | some i =>
-      have hlen := hex i rfl
-      refine ⟨s.ths[i], List.getElem_mem hlen, ?_⟩
-      exact (hall i _ (List.getElem?_eq_getElem hlen)).own.mpr rfl
-  · intro t ht hd
-    obtain ⟨i, hi⟩ := List.getElem?_of_mem ht
-    exact (hall i t hi).doneFree hd
+
+/-! #### Release: a thread-local invariant (needs only the three release facts) and a lock/holder invariant
+that needs nothing -/
+
+/-- thread-local: who has not acquired or has finished holds nothing. -/
+structure RInv (c : Cfg) (t : Thread) : Prop where
+  preFree : t.pc.pre = true → t.holds = false
+  doneFree : t.pc = .done → t.holds = false
+  stepFree : t.kind = .runStep → c.runStepTakesLock = false →
+    t.holds = false ∧ t.pc ≠ .checked ∧ t.pc ≠ .genStart
+
+theorem RInv_iff (c : Cfg) (t : Thread) :
+    RInv c t ↔ ((t.pc.pre = true → t.holds = false) ∧ (t.pc = .done → t.holds = false) ∧
+      (t.kind = .runStep → c.runStepTakesLock = false → t.holds = false ∧ t.pc ≠ .checked ∧ t.pc ≠ .genStart)) :=
+  ⟨fun h => ⟨h.1, h.2, h.3⟩, fun h => ⟨h.1, h.2.1, h.2.2⟩⟩
+
+theorem rel_stepT (c : Cfg) (hc : c.releaseOk = true) (sh : Shared) (t : Thread) (ev : Ev) (h : RInv c t) :
+    RInv c (stepT c sh t ev).2.1 := by
+  obtain ⟨a, b, d, e, f, g⟩ := c
+  obtain ⟨h1, h2, h3⟩ := (releaseOk_iff _).mp hc
+  simp only at h1 h2 h3
+  subst h1 h2 h3
+  obtain ⟨p1, p2, p3⟩ := h
+  obtain ⟨kind, pc, st, rem, first, loc, res, msgs, susp, holds, base⟩ := t
+  obtain ⟨lock, clock, stop, produced⟩ := sh
+  simp only at p1 p2 p3
+  cases ev
+  · cases pc
+    case start =>
+      cases a <;> cases b <;> cases g <;> cases lock <;> cases kind <;> by_cases hr0 : rem = 0 <;>
+        simp [RInv_iff, stepT, stepGo, readLock, testAndSet, refuse, refuseRel, acquired, Pc.pre, hr0] at * <;> grind
+    case checked =>
+      cases a <;> cases b <;> cases g <;> cases lock <;> cases kind <;> by_cases hr0 : rem = 0 <;>
+        simp [RInv_iff, stepT, stepGo, setLock, testAndSet, refuse, refuseRel, acquired, Pc.pre, hr0] at * <;> grind
+    case genStart =>
+      cases b <;> cases kind <;> by_cases hr0 : rem = 0 <;>
+        simp [RInv_iff, stepT, stepGo, setLock, acquired, Pc.pre, hr0] at * <;> grind
+    case prog =>
+      by_cases hcs : clock ≤ stop <;> cases first <;>
+        simp [RInv_iff, stepT, stepGo, Pc.pre, hcs] at * <;> grind
+    case read =>
+      cases b <;> by_cases hcs : clock ≤ stop <;> by_cases hr1 : rem ≤ 1 <;> cases kind <;>
+        simp [RInv_iff, stepT, stepGo, afterStep, Pc.pre, hcs, hr1] at * <;> grind
+    case write =>
+      cases b <;> by_cases hr1 : rem ≤ 1 <;> cases kind <;>
+        simp [RInv_iff, stepT, stepGo, afterStep, Pc.pre, hr1] at * <;> grind
+    all_goals
+      simp [RInv_iff, stepT, stepGo, Pc.pre] at * <;> grind
+  · cases b <;> cases pc <;> cases kind <;>
+      simp [RInv_iff, stepT, stepFail, Pc.pre] at * <;> grind
+  · cases susp <;> cases pc <;>
+      simp [RInv_iff, stepT, stepGone, Pc.pre] at * <;> grind
+
+theorem rel_init (c : Cfg) (stop : Nat) (ks : List Kind) : ∀ t ∈ (State.init stop ks).ths, RInv c t := by
+  intro t ht
+  simp only [State.init, List.mem_map] at ht
+  obtain ⟨k, _, rfl⟩ := ht
+  constructor <;> simp [Thread.mk', Pc.pre]
+
+theorem rel_step (c : Cfg) (hc : c.releaseOk = true) (s : State) (a : Nat × Ev) (h : ∀ t ∈ s.ths, RInv c t) :
+    ∀ t ∈ (step c s a).1.ths, RInv c t := by
+  unfold step
+  cases hget : s.ths[a.1]? with
+  | none => exact h
+  | some t0 =>
+    intro t ht
+    rcases List.mem_or_eq_of_mem_set ht with h1 | h1
+    · exact h t h1
+    · subst h1
+      exact rel_stepT c hc s.sh t0 a.2 (h t0 (List.mem_of_getElem? hget))
+
+theorem rel_run (c : Cfg) (hc : c.releaseOk = true) (sched : Schedule) :
+    ∀ s, (∀ t ∈ s.ths, RInv c t) → ∀ t ∈ (run c s sched).ths, RInv c t := by
+  induction sched with
+  | nil => intro s h; exact h
+  | cons a rest ih => intro s h; exact ih _ (rel_step c hc s a h)
+
+/-- whatever the configuration: a transition that leaves the lock set either made its own thread a holder or
+found the lock set and did not change whether its thread holds. -/
+theorem stepT_lock (c : Cfg) (sh : Shared) (t : Thread) (ev : Ev) :
+    (stepT c sh t ev).1.lock = true →
+      (stepT c sh t ev).2.1.holds = true ∨ (sh.lock = true ∧ (stepT c sh t ev).2.1.holds = t.holds) := by
+  obtain ⟨kind, pc, st, rem, first, loc, res, msgs, susp, holds, base⟩ := t
+  obtain ⟨lock, clock, stop, produced⟩ := sh
+  cases ev
+  · cases pc <;> cases kind <;>
+      simp [stepT, stepGo, readLock, testAndSet, setLock, refuse, refuseRel, acquired, afterStep] <;> grind
+  · simp only [stepT, stepFail]; grind
+  · simp only [stepT, stepGone]; grind
+
+/-- the lock flag is never set without a request between acquire and release (index form). -/
+def LInv (s : State) : Prop := s.sh.lock = true → ∃ (i : Nat) (t : Thread), s.ths[i]? = some t ∧ t.holds = true
+
+theorem lock_step (c : Cfg) (s : State) (a : Nat × Ev) (h : LInv s) : LInv (step c s a).1 := by
+  unfold step
+  cases hget : s.ths[a.1]? with
+  | none => exact h
+  | some t0 =>
+    unfold LInv at h ⊢
+    intro hl
+    have hlen : a.1 < s.ths.length := (List.getElem?_eq_some_iff.mp hget).1
+    have hnew : (s.ths.set a.1 (stepT c s.sh t0 a.2).2.1)[a.1]? = some (stepT c s.sh t0 a.2).2.1 := by
+      simp [hlen]
+    rcases stepT_lock c s.sh t0 a.2 hl with h1 | ⟨h1, h2⟩
+    · exact ⟨a.1, _, hnew, h1⟩
+    · obtain ⟨j, tj, hj, hh⟩ := h h1
+      by_cases hij : a.1 = j
+      · subst hij
+        rw [hget] at hj
+        cases hj
+        exact ⟨a.1, _, hnew, by rw [h2]; exact hh⟩
+      · refine ⟨j, tj, ?_, hh⟩
+        show (s.ths.set a.1 (stepT c s.sh t0 a.2).2.1)[j]? = some tj
+        rw [List.getElem?_set_ne hij]; exact hj
+
+theorem lock_run (c : Cfg) (sched : Schedule) : ∀ s, LInv s → LInv (run c s sched) := by
+  induction sched with
+  | nil => intro s h; exact h
+  | cons a rest ih => intro s h; exact ih _ (lock_step c s a h)
+
+theorem lock_has_holder (c : Cfg) (stop : Nat) (ks : List Kind) (sched : Schedule) :
+    (run c (State.init stop ks) sched).sh.lock = true →
+      ∃ t ∈ (run c (State.init stop ks) sched).ths, t.holds = true := by
+  intro hl
+  have h0 : LInv (State.init stop ks) := by unfold LInv; intro h; simp [State.init] at h
+  have h1 := lock_run c sched _ h0
+  unfold LInv at h1
+  obtain ⟨i, t, hi, hh⟩ := h1 hl
+  exact ⟨t, List.mem_of_getElem? hi, hh⟩
+
+/-- **Release needs only `streamUnlocksOnDone ∧ unlockOnError ∧ unlockOnClientGone`** — whatever the
+acquisition discipline (check-then-act, run-step not locking, a refused request unlocking): a request that has
+ended (completion, error, client gone, refusal) holds nothing, and the flag is set only while some request is
+between acquire and release. -/
+theorem C18_release (c : Cfg) (hc : c.releaseOk = true) (stop : Nat) (ks : List Kind) (sched : Schedule) :
+    ClRelease (run c (State.init stop ks) sched) :=
+  ⟨lock_has_holder c stop ks sched,
+   fun t ht hd => (rel_run c hc sched _ (rel_init c stop ks) t ht).doneFree hd⟩
+
+theorem C18_full_of_good (c : Cfg) (hc : c.good = true) : C18_full c := by
+  obtain ⟨hm, hr⟩ := (good_iff c).mp hc
+  exact (C18_full_iff c).mpr fun stop ks sched =>
+    ⟨C18_mutex c hm stop ks sched, C18_consecutive c hm stop ks sched, C18_release c hr stop ks sched⟩
 
 /-! ### What holds whatever the configuration -/
 
@@ -287,34 +480,272 @@ theorem stepT_len (c : Cfg) (sh : Shared) (t : Thread) (ev : Ev) :
   obtain ⟨kind, pc, st, rem, first, loc, res, msgs, susp, holds, base⟩ := t
   cases ev
   · cases pc <;> cases kind <;>
-      simp [stepT, stepGo, readLock, testAndSet, setLock, refuse, acquired, afterStep] <;> grind
+      simp [stepT, stepGo, readLock, testAndSet, setLock, refuse, refuseRel, acquired, afterStep] <;> grind
   · simp only [stepT, stepFail]; grind
   · simp only [stepT, stepGone]; grind
 
-/-- Whatever the locking discipline: every step result contained in some response was logged exactly once
-for that response (the responses together are as long as the log of produced times). -/
+/-- every transition appends the same (empty or one-element) list to the log and to its thread's response. -/
+theorem stepT_res (c : Cfg) (sh : Shared) (t : Thread) (ev : Ev) :
+    ∃ l, (stepT c sh t ev).2.1.res = t.res ++ l ∧ (stepT c sh t ev).1.produced = sh.produced ++ l := by
+  obtain ⟨kind, pc, st, rem, first, loc, res, msgs, susp, holds, base⟩ := t
+  cases ev
+  · cases pc
+    case write =>
+      refine ⟨[loc], ?_, ?_⟩ <;> cases kind <;> simp [stepT, stepGo, afterStep] <;> grind
+    all_goals
+      refine ⟨[], ?_, ?_⟩ <;> cases kind <;>
+        simp [stepT, stepGo, readLock, testAndSet, setLock, refuse, refuseRel, acquired, afterStep] <;> grind
+  · refine ⟨[], ?_, ?_⟩ <;> simp only [stepT, stepFail] <;> grind
+  · refine ⟨[], ?_, ?_⟩ <;> simp only [stepT, stepGone] <;> grind
+
+def allRes (ths : List Thread) : List Nat := ths.flatMap (fun t => t.res)
+
+theorem allRes_set (ths : List Thread) (i : Nat) (t t' : Thread) (l : List Nat) (h : ths[i]? = some t)
+    (h' : t'.res = t.res ++ l) : (allRes (ths.set i t')).Perm (allRes ths ++ l) := by
+  induction ths generalizing i with
+  | nil => simp at h
+  | cons x rest ih =>
+    cases i with
+    | zero =>
+      simp at h; subst h
+      simp only [List.set_cons_zero, allRes, List.flatMap_cons, h', List.append_assoc]
+      exact List.Perm.append_left _ List.perm_append_comm
+    | succ n =>
+      simp at h
+      have := ih n h
+      simp only [List.set_cons_succ, allRes, List.flatMap_cons, List.append_assoc] at this ⊢
+      exact List.Perm.append_left _ this
+
+/-- thread-local, whatever the configuration: before its lock test a request has an empty response; a refused
+request has an empty response and is on its way out. -/
+structure PInv (t : Thread) : Prop where
+  preEmpty : t.pc.pre = true → t.res = [] ∧ t.msgs = 0
+  refEmpty : t.st = .refused → t.res = [] ∧ t.msgs = 0 ∧ t.susp = false ∧ (t.pc = .done ∨ t.pc = .release)
+
+theorem PInv_iff (t : Thread) :
+    PInv t ↔ ((t.pc.pre = true → t.res = [] ∧ t.msgs = 0) ∧
+      (t.st = .refused → t.res = [] ∧ t.msgs = 0 ∧ t.susp = false ∧ (t.pc = .done ∨ t.pc = .release))) :=
+  ⟨fun h => ⟨h.1, h.2⟩, fun h => ⟨h.1, h.2⟩⟩
+
+theorem p_stepT (c : Cfg) (sh : Shared) (t : Thread) (ev : Ev) (h : PInv t) : PInv (stepT c sh t ev).2.1 := by
+  obtain ⟨a, b, d, e, f, g⟩ := c
+  obtain ⟨p1, p2⟩ := h
+  obtain ⟨kind, pc, st, rem, first, loc, res, msgs, susp, holds, base⟩ := t
+  obtain ⟨lock, clock, stop, produced⟩ := sh
+  simp only at p1 p2
+  cases ev
+  · cases pc
+    case start =>
+      cases a <;> cases b <;> cases g <;> cases lock <;> cases kind <;> by_cases hr0 : rem = 0 <;>
+        simp [PInv_iff, stepT, stepGo, readLock, testAndSet, refuse, refuseRel, acquired, Pc.pre, hr0] at * <;> grind
+    case checked =>
+      cases a <;> cases g <;> cases lock <;> cases kind <;> by_cases hr0 : rem = 0 <;>
+        simp [PInv_iff, stepT, stepGo, setLock, testAndSet, refuse, refuseRel, acquired, Pc.pre, hr0] at * <;> grind
+    case genStart =>
+      cases kind <;> by_cases hr0 : rem = 0 <;>
+        simp [PInv_iff, stepT, stepGo, setLock, acquired, Pc.pre, hr0] at * <;> grind
+    case prog =>
+      by_cases hcs : clock ≤ stop <;> cases first <;>
+        simp [PInv_iff, stepT, stepGo, Pc.pre, hcs] at * <;> grind
+    case read =>
+      cases b <;> by_cases hcs : clock ≤ stop <;> by_cases hr1 : rem ≤ 1 <;> cases kind <;>
+        simp [PInv_iff, stepT, stepGo, afterStep, Pc.pre, hcs, hr1] at * <;> grind
+    case write =>
+      cases b <;> by_cases hr1 : rem ≤ 1 <;> cases kind <;>
+        simp [PInv_iff, stepT, stepGo, afterStep, Pc.pre, hr1] at * <;> grind
+    case ending =>
+      cases d <;> simp [PInv_iff, stepT, stepGo, Pc.pre] at * <;> grind
+    all_goals
+      simp [PInv_iff, stepT, stepGo, Pc.pre] at * <;> grind
+  · cases b <;> cases e <;> cases pc <;> cases kind <;>
+      simp [PInv_iff, stepT, stepFail, Pc.pre] at * <;> grind
+  · cases f <;> cases susp <;> cases pc <;>
+      simp [PInv_iff, stepT, stepGone, Pc.pre] at * <;> grind
+
+theorem p_step (c : Cfg) (s : State) (a : Nat × Ev) (h : ∀ t ∈ s.ths, PInv t) :
+    ∀ t ∈ (step c s a).1.ths, PInv t := by
+  unfold step
+  cases hget : s.ths[a.1]? with
+  | none => exact h
+  | some t0 =>
+    intro t ht
+    rcases List.mem_or_eq_of_mem_set ht with h1 | h1
+    · exact h t h1
+    · subst h1
+      exact p_stepT c s.sh t0 a.2 (h t0 (List.mem_of_getElem? hget))
+
+theorem p_run (c : Cfg) (sched : Schedule) :
+    ∀ s, (∀ t ∈ s.ths, PInv t) → ∀ t ∈ (run c s sched).ths, PInv t := by
+  induction sched with
+  | nil => intro s h; exact h
+  | cons a rest ih => intro s h; exact ih _ (p_step c s a h)
+
+/-- **Whatever the six facts say** (any locking discipline, any release behaviour), for every stop time, request
+list and schedule:
+(1) the responses together are exactly as long as the log of produced times (wave 1), and more precisely
+(2) the log of produced times is a permutation of the concatenated responses: every time written to the results
+    log is contained in exactly one response, once per write — a step result is never lost and never handed to
+    two requests, even when requests interleave;
+(3) a refused request has an empty response (no step result, no stop-time message);
+(4) the lock flag is never set without a request between acquire and release. -/
 theorem C18_partial (c : Cfg) (stop : Nat) (ks : List Kind) (sched : Schedule) :
-    sumLen (run c (State.init stop ks) sched).ths = (run c (State.init stop ks) sched).sh.produced.length := by
-  have one : ∀ (s : State) (a : Nat × Ev), sumLen s.ths = s.sh.produced.length →
-      sumLen (step c s a).1.ths = (step c s a).1.sh.produced.length := by
-    intro s a h
-    unfold step
-    cases hget : s.ths[a.1]? with
-    | none => exact h
-    | some t =>
-      have h1 := stepT_len c s.sh t a.2
-      have h2 := sumLen_set s.ths a.1 t (stepT c s.sh t a.2).2.1 hget
-      show sumLen (s.ths.set a.1 (stepT c s.sh t a.2).2.1) = (stepT c s.sh t a.2).1.produced.length
-      omega
-  have gen : ∀ (sched : Schedule) (s : State), sumLen s.ths = s.sh.produced.length →
-      sumLen (run c s sched).ths = (run c s sched).sh.produced.length := by
-    intro sched
-    induction sched with
-    | nil => intro s h; exact h
-    | cons a rest ih => intro s h; exact ih _ (one s a h)
-  apply gen
-  have := (inv_init stop ks).sum
-  simpa [State.init] using this
+    sumLen (run c (State.init stop ks) sched).ths = (run c (State.init stop ks) sched).sh.produced.length ∧
+    (run c (State.init stop ks) sched).sh.produced.Perm (allRes (run c (State.init stop ks) sched).ths) ∧
+    (∀ t ∈ (run c (State.init stop ks) sched).ths, t.st = .refused → t.res = [] ∧ t.msgs = 0) ∧
+    ((run c (State.init stop ks) sched).sh.lock = true →
+      ∃ t ∈ (run c (State.init stop ks) sched).ths, t.holds = true) := by
+  refine ⟨?_, ?_, ?_, lock_has_holder c stop ks sched⟩
+  · have one : ∀ (s : State) (a : Nat × Ev), sumLen s.ths = s.sh.produced.length →
+        sumLen (step c s a).1.ths = (step c s a).1.sh.produced.length := by
+      intro s a h
+      unfold step
+      cases hget : s.ths[a.1]? with
+      | none => exact h
+      | some t =>
+        have h1 := stepT_len c s.sh t a.2
+        have h2 := sumLen_set s.ths a.1 t (stepT c s.sh t a.2).2.1 hget
+        show sumLen (s.ths.set a.1 (stepT c s.sh t a.2).2.1) = (stepT c s.sh t a.2).1.produced.length
+        omega
+    have gen : ∀ (sched : Schedule) (s : State), sumLen s.ths = s.sh.produced.length →
+        sumLen (run c s sched).ths = (run c s sched).sh.produced.length := by
+      intro sched
+      induction sched with
+      | nil => intro s h; exact h
+      | cons a rest ih => intro s h; exact ih _ (one s a h)
+    apply gen
+    have := (inv_init stop ks).sum
+    simpa [State.init] using this
+  · have one : ∀ (s : State) (a : Nat × Ev), s.sh.produced.Perm (allRes s.ths) →
+        (step c s a).1.sh.produced.Perm (allRes (step c s a).1.ths) := by
+      intro s a h
+      unfold step
+      cases hget : s.ths[a.1]? with
+      | none => exact h
+      | some t =>
+        obtain ⟨l, h1, h2⟩ := stepT_res c s.sh t a.2
+        show (stepT c s.sh t a.2).1.produced.Perm (allRes (s.ths.set a.1 (stepT c s.sh t a.2).2.1))
+        rw [h2]
+        exact (List.Perm.append_right l h).trans (allRes_set s.ths a.1 t _ l hget h1).symm
+    have gen : ∀ (sched : Schedule) (s : State), s.sh.produced.Perm (allRes s.ths) →
+        (run c s sched).sh.produced.Perm (allRes (run c s sched).ths) := by
+      intro sched
+      induction sched with
+      | nil => intro s h; exact h
+      | cons a rest ih => intro s h; exact ih _ (one s a h)
+    apply gen
+    have : allRes (State.init stop ks).ths = [] := by
+      simp only [State.init, allRes]
+      induction ks with
+      | nil => rfl
+      | cons k rest ih => simp [Thread.mk']
+    rw [this]; exact List.Perm.refl _
+  · intro t ht hr
+    have h0 : ∀ t ∈ (State.init stop ks).ths, PInv t := by
+      intro t ht
+      simp only [State.init, List.mem_map] at ht
+      obtain ⟨k, _, rfl⟩ := ht
+      constructor <;> simp [Thread.mk', Pc.pre]
+    have := (p_run c sched _ h0 t ht).refEmpty hr
+    exact ⟨this.1, this.2.1⟩
+
+/-! #### A single request alone (whatever the configuration) -/
+
+structure SInv (sh : Shared) (t : Thread) : Prop where
+  preEmpty : t.pc.pre = true → t.res = []
+  base0 : t.base = 0
+  consec : t.res = List.range' 0 t.res.length
+  cur : t.res.length = sh.clock
+  locCur : (t.pc = .sim ∨ t.pc = .write) → t.loc = sh.clock
+  prod : sh.produced = List.range sh.clock
+
+theorem SInv_iff (sh : Shared) (t : Thread) :
+    SInv sh t ↔ ((t.pc.pre = true → t.res = []) ∧ t.base = 0 ∧ t.res = List.range' 0 t.res.length ∧
+      t.res.length = sh.clock ∧ ((t.pc = .sim ∨ t.pc = .write) → t.loc = sh.clock) ∧
+      sh.produced = List.range sh.clock) :=
+  ⟨fun h => ⟨h.1, h.2, h.3, h.4, h.5, h.6⟩, fun h => ⟨h.1, h.2.1, h.2.2.1, h.2.2.2.1, h.2.2.2.2.1, h.2.2.2.2.2⟩⟩
+
+theorem solo_stepT (c : Cfg) (sh : Shared) (t : Thread) (ev : Ev) (h : SInv sh t) :
+    SInv (stepT c sh t ev).1 (stepT c sh t ev).2.1 := by
+  obtain ⟨a, b, d, e, f, g⟩ := c
+  obtain ⟨p1, p2, p3, p4, p5, p6⟩ := h
+  obtain ⟨kind, pc, st, rem, first, loc, res, msgs, susp, holds, base⟩ := t
+  obtain ⟨lock, clock, stop, produced⟩ := sh
+  simp only at p1 p2 p3 p4 p5 p6
+  cases ev
+  · cases pc
+    case start =>
+      cases a <;> cases b <;> cases g <;> cases lock <;> cases kind <;> by_cases hr0 : rem = 0 <;>
+        simp [SInv_iff, stepT, stepGo, readLock, testAndSet, refuse, refuseRel, acquired, Pc.pre, hr0] at * <;> grind
+    case checked =>
+      cases a <;> cases g <;> cases lock <;> cases kind <;> by_cases hr0 : rem = 0 <;>
+        simp [SInv_iff, stepT, stepGo, setLock, testAndSet, refuse, refuseRel, acquired, Pc.pre, hr0] at * <;> grind
+    case genStart =>
+      cases kind <;> by_cases hr0 : rem = 0 <;>
+        simp [SInv_iff, stepT, stepGo, setLock, acquired, Pc.pre, hr0] at * <;> grind
+    case prog =>
+      by_cases hcs : clock ≤ stop <;> cases first <;>
+        simp [SInv_iff, stepT, stepGo, Pc.pre, hcs] at * <;> grind
+    case read =>
+      cases b <;> by_cases hcs : clock ≤ stop <;> by_cases hr1 : rem ≤ 1 <;> cases kind <;>
+        simp [SInv_iff, stepT, stepGo, afterStep, Pc.pre, hcs, hr1] at * <;> grind
+    case write =>
+      have hsn := range'_snoc 0 res.length
+      have hrs := List.range_succ (n := clock)
+      cases b <;> by_cases hr1 : rem ≤ 1 <;> cases kind <;>
+        simp [SInv_iff, stepT, stepGo, afterStep, Pc.pre, hr1] at * <;> grind
+    case ending =>
+      cases d <;> simp [SInv_iff, stepT, stepGo, Pc.pre] at * <;> grind
+    all_goals
+      simp [SInv_iff, stepT, stepGo, Pc.pre] at * <;> grind
+  · cases b <;> cases e <;> cases pc <;> cases kind <;>
+      simp [SInv_iff, stepT, stepFail, Pc.pre] at * <;> grind
+  · cases f <;> cases susp <;> cases pc <;>
+      simp [SInv_iff, stepT, stepGone, Pc.pre] at * <;> grind
+
+theorem solo_step (c : Cfg) (s : State) (a : Nat × Ev) (h : ∃ t, s.ths = [t] ∧ SInv s.sh t) :
+    ∃ t, (step c s a).1.ths = [t] ∧ SInv (step c s a).1.sh t := by
+  obtain ⟨t, h1, h2⟩ := h
+  obtain ⟨sh, ths⟩ := s
+  simp only at h1 h2
+  subst h1
+  rcases a with ⟨i, ev⟩
+  cases i with
+  | zero => exact ⟨_, rfl, solo_stepT c sh t ev h2⟩
+  | succ n => exact ⟨t, rfl, h2⟩
+
+theorem solo_run (c : Cfg) (sched : Schedule) :
+    ∀ s, (∃ t, s.ths = [t] ∧ SInv s.sh t) → ∃ t, (run c s sched).ths = [t] ∧ SInv (run c s sched).sh t := by
+  induction sched with
+  | nil => intro s h; exact h
+  | cons a rest ih => intro s h; exact ih _ (solo_step c s a h)
+
+/-- **A single request alone satisfies every clause about exclusion and consecutive steps whatever the six facts
+say** (none of the three acquisition defects shows without a second request); with the three release facts it
+satisfies all of `C18_full`'s clauses (`C18_release`), and `C18_witness_stream_completion/_error/_client_gone`
+show that each release fact is needed even for a single request. -/
+theorem C18_solo (c : Cfg) (stop : Nat) (k : Kind) (sched : Schedule) :
+    ClMutex c (run c (State.init stop [k]) sched) ∧ ClConsec (run c (State.init stop [k]) sched) := by
+  have h0 : ∃ t, (State.init stop [k]).ths = [t] ∧ SInv (State.init stop [k]).sh t :=
+    ⟨Thread.mk' k, rfl, by constructor <;> simp [Thread.mk', State.init, Pc.pre]⟩
+  obtain ⟨t, h1, h2⟩ := solo_run c sched _ h0
+  generalize run c (State.init stop [k]) sched = s at h1 h2
+  have one : ∀ (i : Nat) (ti : Thread), s.ths[i]? = some ti → i = 0 := by
+    intro i ti hi
+    rw [h1] at hi
+    cases i with
+    | zero => rfl
+    | succ n => simp at hi
+  refine ⟨⟨?_, ?_, ?_⟩, ?_, ?_, ?_⟩
+  · intro i j ti tj hi hj _ _; rw [one i ti hi, one j tj hj]
+  · intro i j ti tj hi hj hne; exact absurd ((one i ti hi).trans (one j tj hj).symm) hne
+  · intro i j ti tj tj' hi hj hne; exact absurd ((one i ti hi).trans (one j tj hj).symm) hne
+  · intro t' ht'
+    rw [h1] at ht'
+    simp at ht'
+    subst ht'
+    exact consec_head 0 _ h2.consec
+  · rw [h2.prod]; exact List.nodup_range
+  · rw [h1]; simp [sumLen, h2.cur]
 
 /-! ### Negation witnesses (one per mechanism fact) -/
 
@@ -347,44 +778,74 @@ theorem not_full_of_done_holding (c : Cfg) (stop : Nat) (ks : List Kind) (sched 
 /-- check-then-act acquisition (`is_locked()` … `lock()`): two concurrent `run-steps` both pass the test
 before either sets the lock; both are inside the critical section. -/
 theorem C18_witness_toctou (c : Cfg) (h : c.lockIsTestAndSet = false) : ¬ C18_full c := by
-  obtain ⟨a, b, d, e, f⟩ := c
+  obtain ⟨a, b, d, e, f, g⟩ := c
   simp only at h; subst h
   apply not_full_of_two_holders _ 5 [.runSteps 1, .runSteps 1] [(0, .go), (1, .go), (0, .go), (1, .go)] 0 1 (by decide) <;>
-    cases b <;> cases d <;> cases e <;> cases f <;> decide
+    cases b <;> cases d <;> cases e <;> cases f <;> cases g <;> decide
 
 /-- `run-step` only tests the lock: it passes the test, then a `run-steps` acquires, and the single step
 runs inside the other request's critical section. -/
 theorem C18_witness_run_step_unlocked (c : Cfg) (h : c.runStepTakesLock = false) : ¬ C18_full c := by
-  obtain ⟨a, b, d, e, f⟩ := c
+  obtain ⟨a, b, d, e, f, g⟩ := c
   simp only at h; subst h
   apply not_full_of_active_while_held _ 5 [.runSteps 1, .runStep] [(1, .go), (0, .go), (0, .go)] 0 1 (by decide) <;>
-    cases a <;> cases d <;> cases e <;> cases f <;> decide
+    cases a <;> cases d <;> cases e <;> cases f <;> cases g <;> decide
 
 /-- a stream that runs to completion never unlocks (sequential: one request, no concurrency). -/
 theorem C18_witness_stream_completion (c : Cfg) (h : c.streamUnlocksOnDone = false) : ¬ C18_full c := by
-  obtain ⟨a, b, d, e, f⟩ := c
+  obtain ⟨a, b, d, e, f, g⟩ := c
   simp only at h; subst h
   apply not_full_of_done_holding _ 1 [.stream] (List.replicate 18 (0, .go)) 0
-  cases a <;> cases b <;> cases e <;> cases f <;> decide
+  cases a <;> cases b <;> cases e <;> cases f <;> cases g <;> decide
 
 /-- a raising `run_step` leaves the lock set. -/
 theorem C18_witness_error (c : Cfg) (h : c.unlockOnError = false) : ¬ C18_full c := by
-  obtain ⟨a, b, d, e, f⟩ := c
+  obtain ⟨a, b, d, e, f, g⟩ := c
   simp only at h; subst h
   apply not_full_of_done_holding _ 5 [.runSteps 1] [(0, .go), (0, .go), (0, .go), (0, .fail)] 0
-  cases a <;> cases b <;> cases d <;> cases f <;> decide
+  cases a <;> cases b <;> cases d <;> cases f <;> cases g <;> decide
 
 /-- closing a suspended stream leaves the lock set. -/
 theorem C18_witness_client_gone (c : Cfg) (h : c.unlockOnClientGone = false) : ¬ C18_full c := by
-  obtain ⟨a, b, d, e, f⟩ := c
+  obtain ⟨a, b, d, e, f, g⟩ := c
   simp only at h; subst h
   apply not_full_of_done_holding _ 5 [.stream]
     (if a then [(0, .go), (0, .gone)] else [(0, .go), (0, .go), (0, .go), (0, .gone)]) 0
-  cases a <;> cases b <;> cases d <;> cases e <;> decide
+  cases a <;> cases b <;> cases d <;> cases e <;> cases g <;> decide
+
+/-- the schedule of the refusal witness: B (`run-steps`) passes its `is_locked()` test, A (`stream-steps`)
+acquires and streams its first step, B's `try_lock()` is refused — and B's `finally: unlock()` clears A's lock —,
+C (`run-steps`) is accepted in the middle of A and performs a step. -/
+def refusalSched : Schedule :=
+  [(1, .go),                                                              -- B: RL (free)
+   (0, .go), (0, .go), (0, .go), (0, .go), (0, .go), (0, .go), (0, .go),  -- A: TAS "[" RS RS SIM WS chunk
+   (1, .go), (1, .go),                                                    -- B: TAS (refused), CL (!)
+   (2, .go), (2, .go), (2, .go), (2, .go), (2, .go)]                      -- C: RL TAS RS SIM WS
+
+/-- a request refused by `try_lock()` runs `unlock()` on its way out (the test-and-set sits inside the
+`try … finally: unlock()` block): three requests — A streaming, B refused after A locked, C accepted in the
+middle of A; A and C are both between acquire and release.  (When the acquisition is not a test-and-set at all
+there is no `try_lock()` to be refused by: the check-then-act schedule is the witness.) -/
+theorem C18_witness_refusal_unlocks (c : Cfg) (h : c.refusalKeepsLock = false) : ¬ C18_full c := by
+  obtain ⟨a, b, d, e, f, g⟩ := c
+  simp only at h; subst h
+  cases a
+  · exact C18_witness_toctou _ rfl
+  · apply not_full_of_two_holders _ 5 [.stream, .runSteps 1, .runSteps 1] refusalSched 0 2 (by decide) <;>
+      cases b <;> cases d <;> cases e <;> cases f <;> decide
+
+/-- what the refusal witness looks like when everything else is as in the repaired tree: B's response is a
+refusal, A has handed out step 0, C has produced step 1 inside A's critical section and the lock flag is
+set by C while A still streams. -/
+example :
+    let s := run ⟨true, true, true, true, true, false⟩ (State.init 5 [.stream, .runSteps 1, .runSteps 1]) refusalSched
+    s.ths.map (fun t => (t.st, t.res, t.holds)) = [(.pending, [0], true), (.refused, [], false), (.ok, [1], true)] ∧
+      (exec ⟨true, true, true, true, true, false⟩ refusalSched (State.init 5 [.stream, .runSteps 1, .runSteps 1])).2 =
+        [.RL, .TAS, .Y, .RS, .RS, .SIM, .WS, .Y, .TAS, .CL, .RL, .TAS, .RS, .SIM, .WS] := by decide
 
 /-! ### Non-vacuity: concrete runs of the good configuration -/
 
-def goodCfg : Cfg := ⟨true, true, true, true, true⟩
+def goodCfg : Cfg := ⟨true, true, true, true, true, true⟩
 
 /-- a `run-steps 2`, a stream and a `run-step` interleaved: the stream is refused while the `run-steps`
 holds the lock, the `run-step` runs afterwards; times 0,1 and 2 are produced once each. -/
@@ -401,12 +862,31 @@ example :
       [(0, .go), (0, .go), (0, .go), (0, .go), (0, .go), (0, .go), (0, .go), (0, .gone)]
     s.ths.map (fun t => (t.st, t.res, t.holds)) = [(.gone, [0], false)] ∧ s.sh.lock = false := by decide
 
+/-- the refusal schedule under the good configuration: B is refused and leaves the lock alone, C is refused too
+(A still holds), A keeps streaming. -/
+example :
+    let s := run goodCfg (State.init 5 [.stream, .runSteps 1, .runSteps 1]) refusalSched
+    s.ths.map (fun t => (t.st, t.res, t.holds)) = [(.pending, [0], true), (.refused, [], false), (.refused, [], false)] ∧
+      s.sh.lock = true := by decide
+
+/-- the per-clause theorems are not vacuous: a configuration that satisfies `mutexOk` but none of the release
+facts (and vice versa) exists, and there the other part of the statement does fail. -/
+example : (⟨true, true, false, false, false, true⟩ : Cfg).mutexOk = true ∧
+    ¬ C18_full ⟨true, true, false, false, false, true⟩ := ⟨rfl, C18_witness_error _ rfl⟩
+example : (⟨false, false, true, true, true, false⟩ : Cfg).releaseOk = true ∧
+    ¬ C18_full ⟨false, false, true, true, true, false⟩ := ⟨rfl, C18_witness_toctou _ rfl⟩
+
 #print axioms C18_full_of_good
+#print axioms C18_mutex
+#print axioms C18_consecutive
+#print axioms C18_release
+#print axioms C18_solo
 #print axioms C18_partial
 #print axioms C18_witness_toctou
 #print axioms C18_witness_run_step_unlocked
 #print axioms C18_witness_stream_completion
 #print axioms C18_witness_error
 #print axioms C18_witness_client_gone
+#print axioms C18_witness_refusal_unlocks
 
 end Bptk.C18
